@@ -116,6 +116,12 @@ func MimeDump(t any, accept string) (data []byte, mimeType string, format uint8,
 		return nil, "", 0, ErrIncompatibleFormat
 	}
 
+	// Get the mime type of the selected format.
+	mimeType, ok := FormatToMimeType[format]
+	if !ok {
+		return nil, "", 0, ErrIncompatibleFormat
+	}
+
 	// Serialize and return.
 	data, err = dumpWithoutIdentifier(t, format, "")
 	return data, mimeType, format, err
